@@ -223,9 +223,16 @@ class Summarizer:
             if isinstance(st, ast.AugAssign):
                 if isinstance(st.target, ast.Name):
                     cur = env.get(st.target.id, ast.Name(id=st.target.id, ctx=ast.Load()))
-                    env[st.target.id] = ast.BinOp(
-                        left=copy.deepcopy(cur), op=st.op, right=self._subst(st.value, env, localfns)
-                    )
+                    new = ast.BinOp(left=copy.deepcopy(cur), op=st.op, right=self._subst(st.value, env, localfns))
+                    # `x = self.a.b; x *= 2`: x is an ALIAS of an object reachable from self, and an augmented
+                    # assignment updates that object in place (ndarray, list): the value is `x * 2` AND the
+                    # shared object has changed.
+                    root = cur
+                    while isinstance(root, (ast.Attribute, ast.Subscript)):
+                        root = root.value
+                    if isinstance(cur, (ast.Attribute, ast.Subscript)) and isinstance(root, ast.Name) and root.id == "self":
+                        new = mk_call("__inplace_on_shared__", new)
+                    env[st.target.id] = new
                 else:
                     self._assign(st.target, NONE, env)
                 continue
@@ -298,8 +305,39 @@ class Summarizer:
 SUMMARIZER = Summarizer()
 
 
+class _SubstName(ast.NodeTransformer):
+    def __init__(self, name: str, value: ast.expr):
+        self.name, self.value = name, value
+
+    def visit_Name(self, node: ast.Name):
+        if node.id == self.name and isinstance(node.ctx, ast.Load):
+            return copy.deepcopy(self.value)
+        return node
+
+
+def _literal_iter(it: ast.expr) -> Optional[List[ast.expr]]:
+    if isinstance(it, (ast.Tuple, ast.List)) and len(it.elts) <= 8 and all(isinstance(x, ast.Constant) for x in it.elts):
+        return list(it.elts)
+    if isinstance(it, ast.Call) and isinstance(it.func, ast.Name) and it.func.id == "range" and len(it.args) == 1 and not it.keywords:
+        a = it.args[0]
+        if isinstance(a, ast.Constant) and isinstance(a.value, int) and 0 <= a.value <= 8:
+            return [ast.Constant(value=k) for k in range(a.value)]
+    return None
+
+
 class _Fold(ast.NodeTransformer):
-    """Constant folding of literal container indexing: [a, b][0] -> a."""
+    """Constant folding of literal container indexing: [a, b][0] -> a; and unrolling of a list
+    comprehension over a literal index set: [f(i) for i in (0, 1)] -> [f(0), f(1)]."""
+
+    def visit_ListComp(self, node: ast.ListComp):
+        self.generic_visit(node)
+        if len(node.generators) == 1:
+            g = node.generators[0]
+            vals = _literal_iter(g.iter)
+            if vals is not None and isinstance(g.target, ast.Name) and not g.ifs and not g.is_async:
+                elts = [self.visit(_SubstName(g.target.id, v).visit(copy.deepcopy(node.elt))) for v in vals]
+                return ast.List(elts=elts, ctx=ast.Load())
+        return node
 
     def visit_Subscript(self, node: ast.Subscript):
         self.generic_visit(node)
